@@ -1,2 +1,50 @@
-From Astisub Require Import Kit.Base Model.Lin.
-Theorem C15_placeholder : True. Proof. exact I. Qed.
+(* C15 — Linear correction is the affine map through the two reference points.
+   [lin] is the binary64 evaluation of subtitles.go (Flocq BinarySingleNaN, round to nearest even,
+   no fused operations), in the code's order: a = (d2-d1)/(a2-a1); b = trunc(d1 - a*a1); t -> trunc(a*t) + b. *)
+From Coq Require Import List ZArith Reals.
+From Astisub Require Import Kit.Base Kit.Float64 Model.Ops Model.Lin Proofs.FracFloatProofs Proofs.LinProofs Proofs.LinListProofs.
+Import ListNotations.
+
+(* every boundary in [0,24h], reference points in [0,24h], exact slope in [1/2,2] (either orientation of
+   the two points): the result is within 3 ns (< 1 us) of d1 + (t-a1)(d2-d1)/(a2-a1) *)
+Theorem C15_affine : forall a1 d1 a2 d2 t : Z,
+  in_day a1 -> in_day d1 -> in_day a2 -> in_day d2 -> in_day t -> a1 <> a2 -> slope_ok a1 d1 a2 d2 ->
+  (Rabs (IZR (lin a1 d1 a2 d2 t) - (IZR d1 + IZR (t - a1) * IZR (d2 - d1) / IZR (a2 - a1))) <= 3)%R.
+Proof. exact lin_affine. Qed.
+(* a1 lands on d1 and a2 on d2 *)
+Theorem C15_anchor1 : forall a1 d1 a2 d2 : Z,
+  in_day a1 -> in_day d1 -> in_day a2 -> in_day d2 -> a1 <> a2 -> slope_ok a1 d1 a2 d2 ->
+  (Z.abs (lin a1 d1 a2 d2 a1 - d1) <= 3)%Z.
+Proof. exact lin_anchor1. Qed.
+Theorem C15_anchor2 : forall a1 d1 a2 d2 : Z,
+  in_day a1 -> in_day d1 -> in_day a2 -> in_day d2 -> a1 <> a2 -> slope_ok a1 d1 a2 d2 ->
+  (Z.abs (lin a1 d1 a2 d2 a2 - d2) <= 3)%Z.
+Proof. exact lin_anchor2. Qed.
+(* the order of boundaries is preserved (the slope is positive) *)
+Theorem C15_monotone : forall a1 d1 a2 d2 t t' : Z,
+  in_day a1 -> in_day d1 -> in_day a2 -> in_day d2 -> in_day t -> in_day t' -> a1 <> a2 -> slope_ok a1 d1 a2 d2 ->
+  (t <= t')%Z -> (lin a1 d1 a2 d2 t <= lin a1 d1 a2 d2 t')%Z.
+Proof. exact lin_monotone. Qed.
+(* cue text, style, identity and list order untouched; both boundaries of every cue go through [lin] *)
+Theorem C15_payload_order : forall a1 d1 a2 d2 l,
+  map (fun x => (uid x, i_lines x, i_reg x, i_sty x, i_inl x)) (linear_correction a1 d1 a2 d2 l) =
+  map (fun x => (uid x, i_lines x, i_reg x, i_sty x, i_inl x)) l.
+Proof. exact linear_correction_payload. Qed.
+Theorem C15_times : forall a1 d1 a2 d2 l,
+  map (fun x => (st x, en x)) (linear_correction a1 d1 a2 d2 l) =
+  map (fun x => (lin a1 d1 a2 d2 (st x), lin a1 d1 a2 d2 (en x))) l.
+Proof. exact linear_correction_times. Qed.
+(* "scales every cue's length by the slope" is the difference of two instances of C15_affine (6 ns). *)
+
+(* non-vacuity: the PAL -> NTSC-film ratio 25/23.976 over one hour *)
+Example C15_example :
+  in_day 0 /\ in_day 3600000000000 /\ in_day 3753753753753 /\ slope_ok 0 0 3600000000000 3753753753753 /\
+  lin 0 0 3600000000000 3753753753753 1800000000000 = 1876876876876%Z.
+Proof. unfold in_day, slope_ok, day. repeat split; try (vm_compute; discriminate). left. repeat split; vm_compute; discriminate. Qed.
+
+Print Assumptions C15_affine.
+Print Assumptions C15_anchor1.
+Print Assumptions C15_anchor2.
+Print Assumptions C15_monotone.
+Print Assumptions C15_payload_order.
+Print Assumptions C15_times.
